@@ -49,10 +49,19 @@ type pki struct {
 	caCert             *x509.Certificate
 	caKey              *ecdsa.PrivateKey
 	clientCA, clientSS tls.Certificate
+	srvKey             *ecdsa.PrivateKey // key of the server certificate written last
 }
 
 func genCert(cn string, ca *x509.Certificate, caKey *ecdsa.PrivateKey, isCA bool) (certPEM, keyPEM []byte, cert *x509.Certificate, key *ecdsa.PrivateKey) {
-	key, _ = ecdsa.GenerateKey(elliptic.P256(), crand.Reader)
+	return genCertKey(cn, ca, caKey, isCA, nil)
+}
+
+// genCertKey: the same, for the given private key (a renewal that keeps the key) when reuse is not nil
+func genCertKey(cn string, ca *x509.Certificate, caKey *ecdsa.PrivateKey, isCA bool, reuse *ecdsa.PrivateKey) (certPEM, keyPEM []byte, cert *x509.Certificate, key *ecdsa.PrivateKey) {
+	key = reuse
+	if key == nil {
+		key, _ = ecdsa.GenerateKey(elliptic.P256(), crand.Reader)
+	}
 	tmpl := &x509.Certificate{SerialNumber: big.NewInt(time.Now().UnixNano()), Subject: pkix.Name{CommonName: cn}, NotBefore: time.Now().Add(-time.Hour), NotAfter: time.Now().Add(24 * time.Hour),
 		KeyUsage: x509.KeyUsageDigitalSignature | x509.KeyUsageCertSign, ExtKeyUsage: []x509.ExtKeyUsage{x509.ExtKeyUsageServerAuth, x509.ExtKeyUsageClientAuth},
 		BasicConstraintsValid: true, IsCA: isCA, DNSNames: []string{"localhost"}, IPAddresses: []net.IP{net.ParseIP("127.0.0.1")}}
@@ -84,7 +93,14 @@ func newPKI() *pki {
 }
 
 func (p *pki) writeServerCert(cn string) {
-	c, k, _, _ := genCert(cn, p.caCert, p.caKey, false)
+	p.writeServerCertKey(cn, nil)
+}
+
+// writeServerCertKey writes a server certificate for cn; with keep = true it is issued for the key of the
+// certificate written last (what "certbot renew --reuse-key" does)
+func (p *pki) writeServerCertKey(cn string, reuse *ecdsa.PrivateKey) {
+	c, k, _, key := genCertKey(cn, p.caCert, p.caKey, false, reuse)
+	p.srvKey = key
 	must(os.WriteFile(filepath.Join(p.dir, "srv.pem"), c, 0o600))
 	must(os.WriteFile(filepath.Join(p.dir, "srv.key"), k, 0o600))
 }
@@ -220,7 +236,11 @@ func runTLSOps(ops []string) []string {
 					continue
 				}
 			}
-			p.writeServerCert("srv2")
+			if len(f) > 2 && f[2] == "samekey" {
+				p.writeServerCertKey("srv2", p.srvKey) // renewed certificate, same private key
+			} else {
+				p.writeServerCert("srv2")
+			}
 			err := n.GetExportOptions().TLS.ReloadCertificates() // the documented rotation step
 			_, _, cn2 := p.dial(port, tls.VersionTLS13, nil)
 			stop()
@@ -294,7 +314,7 @@ func checkC30(r *Result, rng *rand.Rand, thorough bool) {
 			ops = append(ops, fmt.Sprintf("tls accepts %d %s %s", ca, pc[0], pc[1]))
 		}
 	}
-	ops = append(ops, "tls rotate", "tls rotate updated")
+	ops = append(ops, "tls rotate", "tls rotate updated", "tls rotate samekey")
 	impl = runTLSOps(ops)
 	tlsOracle(r, ops, impl)
 	var cases []Case
